@@ -45,6 +45,7 @@ func genC10(t *rapid.T) C10Case {
 	}
 	u := UniverseFor(t, tree, false)
 	u.Stateless = drawStateless(t)
+	operatorLikeNames(t, tree, u)
 	// sometimes the integer constant is registered with a raw Go type (int, int32): the engine
 	// does not normalise ConstantMap values, so built-in operators reject it at run time - and
 	// must reject it at compile time too. A sentinel value keeps it recognisable in Dump output.
